@@ -18,9 +18,11 @@ use crate::rng::Fnv;
 use crate::{flavour, Args, DEFAULT_SEED};
 
 const VERIF_DIR: &str = "/verif";
-const HANG_SECS: u64 = 60;
+/// a worker that stays silent this long inside one run is taken to hang (a normal run takes
+/// milliseconds to a few seconds; the slack is there for heavily loaded machines)
+const HANG_SECS: u64 = 300;
 /// a single op list executed alone in its own process normally takes well under two seconds
-const EXEC_HANG_SECS: u64 = 30;
+const EXEC_HANG_SECS: u64 = 150;
 
 fn verif_dir() -> PathBuf {
     PathBuf::from(std::env::var("LSIM_VERIF_DIR").unwrap_or_else(|_| VERIF_DIR.to_string()))
@@ -920,6 +922,7 @@ pub fn cmd_check(args: &Args) -> i32 {
     for f in &failures {
         by_key.entry(f.key.clone()).or_default().push(f);
     }
+    let mut slow_runs = 0u64;
     let mut violation_lines: Vec<String> = Vec::new();
     let mut known_lines: Vec<String> = Vec::new();
     let mut reported: Vec<Value> = Vec::new();
@@ -948,6 +951,12 @@ pub fn cmd_check(args: &Args) -> i32 {
         let original_len = ops.len();
         let first = fails_like(&prop, &cfg, &ops, &f.target, "first", f.flavour);
         let (cfg, ops, detail, tried) = match first {
+            None if matches!(f.target, Target::Hang) => {
+                // slow under load, not hanging: executed alone it finished in time
+                println!("  note: run {} of scenario {} was killed as hanging inside its worker but finishes when executed alone; counted as slow, not as a violation", f.run, f.scenario);
+                slow_runs += 1;
+                continue;
+            }
             None => {
                 eprintln!("lsim: run {} of scenario {} reported {} in its worker but not when re-executed alone; harness error", f.run, f.scenario, key);
                 return 2;
@@ -963,7 +972,7 @@ pub fn cmd_check(args: &Args) -> i32 {
                     fails_like(&p, c, o, &target, &format!("min{}", counter), fl).map(|(s, _)| s)
                 };
                 // a Miri candidate costs the better part of a minute: only the truncation step is tried
-                let budget = if matches!(f.target, Target::Hang) { 6 } else if matches!(f.target, Target::Miri { .. }) { 1 } else { 3000 };
+                let budget = if matches!(f.target, Target::Hang) { 3 } else if matches!(f.target, Target::Miri { .. }) { 1 } else { 3000 };
                 let (c2, o2, tried) = minimise::minimise(&cfg, &ops, at_op, budget, &mut test);
                 let d2 = fails_like(&prop, &c2, &o2, &f.target, "final", f.flavour).map(|(_, d)| d).unwrap_or(d);
                 (c2, o2, d2, tried)
@@ -1007,7 +1016,7 @@ pub fn cmd_check(args: &Args) -> i32 {
 
     // ---- evidence
     let wall = t0.elapsed().as_secs_f64();
-    let evidence = build_evidence(&prop, &tier, seed, &total, &per_scenario, wall, failures.len(), &reported, &known_lines, recheck_runs, truncated, cross_runs, &miri_json);
+    let evidence = build_evidence(&prop, &tier, seed, &total, &per_scenario, wall, failures.len(), &reported, &known_lines, recheck_runs, truncated, cross_runs, &miri_json, slow_runs);
     let evdir = verif_dir().join("evidence");
     let _ = std::fs::create_dir_all(&evdir);
     let evpath = evdir.join(format!("{}.json", prop));
@@ -1074,7 +1083,7 @@ fn assumptions_for(prop: &str) -> Vec<&'static str> {
 }
 
 #[allow(clippy::too_many_arguments)]
-fn build_evidence(prop: &str, tier: &str, seed: u64, a: &Agg, per_scenario: &[Value], wall: f64, failures: usize, reported: &[Value], known: &[String], recheck_runs: u64, truncated: bool, cross_runs: u64, miri: &Value) -> Value {
+fn build_evidence(prop: &str, tier: &str, seed: u64, a: &Agg, per_scenario: &[Value], wall: f64, failures: usize, reported: &[Value], known: &[String], recheck_runs: u64, truncated: bool, cross_runs: u64, miri: &Value, slow_runs: u64) -> Value {
     let mut faults = serde_json::Map::new();
     let mut fault_runs = serde_json::Map::new();
     for (i, k) in FAULT_KINDS.iter().enumerate() {
@@ -1099,6 +1108,9 @@ fn build_evidence(prop: &str, tier: &str, seed: u64, a: &Agg, per_scenario: &[Va
         if a.probes[i] == 0 {
             warnings.push(format!("probe {} never fired in this batch", PROBE_NAMES[i]));
         }
+    }
+    if slow_runs > 0 {
+        warnings.push(format!("{} run(s) were killed as hanging inside a worker but finished when executed alone (machine under load); not counted as violations", slow_runs));
     }
     if truncated {
         warnings.push("a batch stopped at its wall-clock cap before the planned number of runs".to_string());
